@@ -31,6 +31,7 @@ COORDS = dict(
     place=['none', 'shift', 'tail', 'head'],
     preload=[0, 1, 2, 3, 4],
     finalize=[1, 0],
+    ortho=[0, 1],
 )
 for _f in pan.FLAGS:
     COORDS['t_' + _f] = [0, 1]
@@ -45,7 +46,7 @@ def expand(c, seed):
     model = c['model']
     cfg = dict(model=model, a=a, b=b, r=c['r'], alphadeg=c['alpha'] if model == 'kpanel' else 0.0, lam=c['lam'],
                offset=c['offset'], fbase=c['fbase'], ftoggle=[f for f in pan.FLAGS if c.get('t_' + f)], m=m, n=n,
-               sub=c['sub'], place=c['place'], preload=PRELOADS[c['preload']], finalize=bool(c['finalize']), seed=seed)
+               sub=c['sub'], place=c['place'], preload=PRELOADS[c['preload']], finalize=bool(c['finalize']), ortho=bool(c.get('ortho', 0)), seed=seed)
     return cfg
 
 
@@ -85,8 +86,18 @@ def full_point(lp):
     return c
 
 
+def ortho_F(F):
+    """force_orthotropic_laminate: the 16 / 26 entries of A, B and D are removed"""
+    F = np.array(F, dtype=float)
+    for (i, j) in ((0, 2), (1, 2), (0, 5), (1, 5), (3, 2), (4, 2), (3, 5), (4, 5)):
+        F[i, j] = F[j, i] = 0.0
+    return F
+
+
 def k0_of(cfg):
     p = pan.make_panel(cfg)
+    if cfg.get('ortho'):
+        p.force_orthotropic_laminate = True
     nloc = (1 if cfg['model'] == 'plate_w' else 3) * cfg['m'] * cfg['n']
     size, r0, c0 = pan.placement(cfg, nloc)
     K = pan.dense(p.calc_k0(size=size, row0=r0, col0=c0, silent=True, finalize=cfg['finalize']))
@@ -103,7 +114,7 @@ def check_case(case):
     execs = 1
     p, K, (size, r0, c0, nloc) = k0_of(cfg)
     ref, lam = pan.make_ref(cfg)
-    F = lam['ABD']
+    F = ortho_F(lam['ABD']) if cfg.get('ortho') else lam['ABD']
     Kr = ref.k0(F)
     S = ref.k0_scale(F)
     if cfg['preload']:
@@ -199,7 +210,7 @@ def check_case(case):
                                   got=float(tot[i3]), expected=float(Wm[i3])))
     # edge: re-use of one Panel object - evaluate the neighbouring (base-side) configuration first, then change the
     # definition attributes on the same object and evaluate again: must equal the freshly defined object
-    REUSE = ('offset', 'geom', 'r', 'alpha', 'fbase', 'ord', 'sub', 'preload')
+    REUSE = ('offset', 'geom', 'r', 'alpha', 'fbase', 'ord', 'sub', 'preload', 'ortho')
     lp = case['lp']
     devs = [q for q in lp if q in REUSE or q.startswith('t_')]
     if devs and cfg['finalize'] and not fails:
@@ -208,8 +219,10 @@ def check_case(case):
         nb[q] = COORDS[q][0] if COORDS[q][0] != nb[q] else COORDS[q][1]
         cfg_nb = expand(nb, case['seed'])
         p2 = pan.make_panel(cfg_nb)
+        p2.force_orthotropic_laminate = bool(cfg_nb.get('ortho'))
         s2 = pan.placement(cfg_nb, (1 if cfg_nb['model'] == 'plate_w' else 3) * cfg_nb['m'] * cfg_nb['n'])
         p2.calc_k0(size=s2[0], row0=s2[1], col0=s2[2], silent=True)
+        p2.force_orthotropic_laminate = bool(cfg.get('ortho'))
         pt = pan.make_panel(cfg)                       # donor of the target definition
         for att in ('a', 'b', 'r', 'alphadeg', 'offset', 'm', 'n', 'y1', 'y2', 'Nxx_cte', 'Nyy_cte', 'Nxy_cte') + tuple(pan.FLAGS):
             if att in ('r', 'alphadeg') and cfg['model'] not in ('cpanel', 'kpanel'):
